@@ -144,6 +144,31 @@ func rollRealOne(r *hx.Result, dir string, k int, seed int64, seconds int) *rrRu
 		}
 		wg.Wait()
 	}
+	// burst: every writer writes 64 KiB lines back to back (whole, unmixed lines even under contention)
+	if writers > 1 {
+		var wg sync.WaitGroup
+		until := time.Now().Add(300 * time.Millisecond)
+		for w := 0; w < max(writers, 4); w++ {
+			wg.Add(1)
+			go func(w int) {
+				defer wg.Done()
+				for time.Now().Before(until) {
+					mu.Lock()
+					nextID++
+					id := nextID
+					mu.Unlock()
+					line := []byte(fmt.Sprintf("W id=%d %s end=%d\n", id, strings.Repeat(string(rune('a'+w%26)), 65536+int(id%7)), id))
+					t0 := time.Now()
+					app.Write(line)
+					t1 := time.Now()
+					mu.Lock()
+					run.Writes = append(run.Writes, rrWrite{ID: id, W: w, Start: t0.UnixMilli(), End: t1.UnixMilli()})
+					mu.Unlock()
+				}
+			}(w)
+		}
+		wg.Wait()
+	}
 	half := time.Now().Add(time.Until(deadline) / 2)
 	writePhase(half)
 	// stop/start cycle with no write in progress, inside one second
@@ -183,6 +208,17 @@ func rollRealOne(r *hx.Result, dir string, k int, seed int64, seconds int) *rrRu
 			}
 			tail := line[strings.LastIndex(line, " ")+1:]
 			fmt.Sscanf(tail, "end=%d", &end)
+			body := line[strings.Index(line, " ")+1:]
+			if sp := strings.Index(body, " "); sp > 0 {
+				pad := body[strings.Index(body, " ")+1:]
+				if k := strings.LastIndex(pad, " "); k > 0 {
+					pad = pad[:k]
+					if strings.Trim(pad, pad[:1]) != "" {
+						r.Violate("torn-line", run.Desc, "file %s: the line of write %d mixes bytes of different writes", name, id)
+						continue
+					}
+				}
+			}
 			if end != id {
 				r.Violate("torn-line", run.Desc, "file %s holds a torn line for write %d: %.40q ... %.20q", name, id, line, tail)
 				continue
